@@ -86,13 +86,14 @@ def plan(tier, seed):
     specs += [{"mode": "shipped", "which": w, "n": 120 if tier == "quick" else 5000, "rseed": seed * 1000 + 100 + k}
               for k, w in enumerate(["mex", "nimitz"])]
     specs[-1]["optimize"] = True          # python -O: assert statements are compiled away
+    specs.append({"mode": "peltool", "n": 14 if tier == "quick" else 250, "rseed": seed * 1000 + 400})
     specs.append({"mode": "layout", "n": 30 if tier == "quick" else 300, "rseed": seed * 1000 + 200})
     return specs
 
 
 def minimums(tier):
     return {"trace.calls_checked": 8000, "trace.lines_checked": 80000, "get_trace_string.checked": 8000,
-            "workload.truncations": 4000, "workload.short_inputs": 300, "layout.compared": 50,
+            "workload.truncations": 4000, "workload.short_inputs": 300, "peltool.io_section_runs": 30, "peltool.io_sections_compared": 30, "layout.compared": 50,
             "layout.decoded_in_plain_tree": 50}
 
 
@@ -123,6 +124,12 @@ def run(spec, ctx):
     import io_drawer.trace as trace
     rng = random.Random(spec["rseed"])
     root = harness.scratch_root()
+    if spec["mode"] == "peltool":
+        # the section inside a PEL, decoded by peltool in a process of its own (see vf/iocli.py)
+        from vf import iocli
+        from vf import pelmodel as pm
+        iocli.run(ctx, ID, rng, pm.Uniq(spec["shard"] * 10_000_000), 84, spec["n"])
+        return
     if spec["mode"] == "layout":
         # the shipped string files are found next to the modules: same result however the package is laid out on disk
         from vf import layout
